@@ -144,6 +144,59 @@ theorem crc_without_init_depends_on_register :
     (crcRunFrom ⟨8, 7, 0, 0, false, false⟩ none false 1 [true, false, true]).2
       ≠ (crcRunFrom ⟨8, 7, 0, 0, false, false⟩ none false 0 [true, false, true]).2 := by decide +kernel
 
+/-! ## a memo in front of the entry points: which keys are safe
+
+The model's entry points with a "same as last time" shortcut (`memoStep`: remembered key and result; not in the code).
+A shortcut is the typical *new* hidden state a change introduces; whether it breaks the property depends on the key only. -/
+
+/-- **a memo whose key determines the result is invisible**: in every history, from any state satisfying the
+invariant and any memo content that is the result of some earlier call, every call answers the history-free function -/
+theorem memo_transparent {κ : Type} [DecidableEq κ] (key : Call → κ)
+    (hk : ∀ c c', key c = key c' → pureOut c = pureOut c') (cs : List Call) :
+    memoRun key (init, none) cs = cs.map pureOut :=
+  memoRun_good key hk cs init none init_inv (fun _ _ e => nomatch e)
+
+/-- … and only then: if the key identifies two calls with different results, the history `c; c'` answers `c'` wrongly -/
+theorem memo_collision_history_dependent {κ : Type} [DecidableEq κ] (key : Call → κ) (c c' : Call)
+    (hk : key c = key c') (hne : pureOut c ≠ pureOut c') :
+    memoRun key (init, none) [c, c'] ≠ [c, c'].map pureOut :=
+  memoRun_collision key init init_inv c c' hk hne
+
+/-- the hypotheses are satisfiable: the full argument list is a safe key, and so is the coarsest one, the result itself -/
+example (cs : List Call) : memoRun (fun c => c) (init, none) cs = cs.map pureOut := memo_transparent _ (fun _ _ h => by rw [h]) cs
+example (cs : List Call) : memoRun pureOut (init, none) cs = cs.map pureOut := memo_transparent _ (fun _ _ h => h) cs
+
+/-- the 28 bits of a short LC (activity update) -/
+def slcBits : Bits := natToBits 28 0x182B24D
+
+/-- **the bit order of a `bitarray` is part of the argument**: `CRC8.CALC` (table driven, `ba2int` of every chunk) answers
+74 for the big-endian and 25 for the little-endian array of the same 0/1 values -/
+theorem bit_order_is_part_of_the_argument :
+    pureOut (.crcShared 0 slcBits false) = .bits (natToBits 8 74) ∧ pureOut (.crcShared 0 slcBits true) = .bits (natToBits 8 25) := by
+  decide +kernel
+
+/-- so a shortcut keyed by what `bitarray.__eq__` / `to01()` see is history dependent: after the big-endian call the
+little-endian call of the same 0/1 values gets the remembered (wrong) checksum -/
+theorem memo_keyed_by_bit_values_history_dependent :
+    memoRun keyBitValues (init, none) [.crcShared 0 slcBits false, .crcShared 0 slcBits true]
+      ≠ [.crcShared 0 slcBits false, .crcShared 0 slcBits true].map pureOut :=
+  memo_collision_history_dependent keyBitValues _ _ rfl (by decide +kernel)
+
+/-- a shortcut keyed by `tobytes()` loses the number of bits used in the last octet: 28 bits and the same 28 bits followed by four zeros -/
+theorem memo_keyed_by_octets_history_dependent :
+    memoRun keyOctets (init, none) [.crcShared 0 slcBits false, .crcShared 0 (slcBits ++ [false, false, false, false]) false]
+      ≠ [.crcShared 0 slcBits false, .crcShared 0 (slcBits ++ [false, false, false, false]) false].map pureOut :=
+  memo_collision_history_dependent keyOctets _ _ (by decide +kernel) (by decide +kernel)
+
+/-- CRC-16/CCITT-FALSE (initial value 0xFFFF), table driven, on a calculator the caller keeps -/
+def ccittFalse : CrcCfg := ⟨16, 0x1021, 0xFFFF, 0, false, false⟩
+
+/-- a shortcut keyed by `ba2int()` loses the length: with a non-zero initial value leading zeros change the checksum -/
+theorem memo_keyed_by_int_history_dependent :
+    memoRun keyInt (init, none) [.crcKept ccittFalse true (natToBits 16 0x0123) false, .crcKept ccittFalse true (natToBits 8 0 ++ natToBits 16 0x0123) false]
+      ≠ [.crcKept ccittFalse true (natToBits 16 0x0123) false, .crcKept ccittFalse true (natToBits 8 0 ++ natToBits 16 0x0123) false].map pureOut :=
+  memo_collision_history_dependent keyInt _ _ (by decide +kernel) (by decide +kernel)
+
 /-! ## the inventory of hidden state equals the reviewed list
 
 `Gen.hiddenState` is regenerated from the source on every run (`tools/scan_state.py`).  The list below was
